@@ -47,7 +47,22 @@ def gen(seed, salt):
 
 # ----------------------------------------------------------------------------- independent loss formulas
 def model_probs(qt, var):
-    return np.array(qt.calc_matA(), dtype=float) @ np.asarray(var, dtype=float) + np.array(qt.calc_vecB(), dtype=float)
+    """model distributions of the variable `var`, by the harness's own Born rule over the tester objects and the schedule list
+    (c10lib.born_probs) -- independent of quara's coefficient matrices matA / vecB"""
+    obj = qt._template_qoperation.generate_from_var(np.asarray(var, dtype=float))
+    return np.concatenate(L.born_probs(qt, obj))
+
+
+def born_exact(qt, obj, shots=1000):
+    return [(shots, np.array(p, dtype=float)) for p in L.born_probs(qt, obj)]
+
+
+def born_fewshot(g, qt, obj, shots):
+    out = []
+    for p in L.born_probs(qt, obj):
+        p = np.clip(np.array(p, dtype=float), 0, None)
+        out.append((shots, g.multinomial(shots, p / p.sum()) / shots))
+    return out
 
 
 def ref_loss(fam, qt, empi, var):
@@ -99,6 +114,13 @@ def make_specs(seed, quick, volume=1):
         specs.append({"seed": seed, "salt": 900 + j + 1000 * volume, "sys": "1qubit", "kind": kind, "para": True, "fam": fam,
                       "mode": STOP_MODES[0], "nh": 1, "shots": shots, "truth": ["interior", "boundary"][j % 2],
                       "m": 2 if kind == "povmt" else None})
+    # explicit schedule lists in a non-default order (the same experiments, permuted): data and reference loss follow the harness's
+    # Born rule over the schedule list
+    for j, (fam, kind, para, shots) in enumerate([("fse", "qst", True, "exact"), ("fre", "qst", False, 1000), ("se", "qst", False, 100),
+                                                  ("fre", "povmt", False, "exact"), ("fse", "qpt", True, 1000), ("re", "qst", True, "exact")]):
+        specs.append({"seed": seed, "salt": 950 + j + 1000 * volume, "sys": "1qubit", "kind": kind, "para": para, "fam": fam,
+                      "mode": STOP_MODES[0], "nh": 1, "shots": shots, "truth": ["interior", "boundary"][j % 2],
+                      "m": 2 if kind == "povmt" else None, "perm": True})
     fams = ["se", "re", "fse", "fre"]
     shots_all = ["exact", 10, 100, 1000, 100000]
     for i, (sysname, kind, para) in enumerate(cells):
@@ -110,15 +132,16 @@ def make_specs(seed, quick, volume=1):
         specs.append({"seed": seed, "salt": i + 1000 * volume, "sys": sysname, "kind": kind, "para": para, "fam": fam,
                       "mode": mode, "nh": int(rnd.integers(1, 4)) if mode != STOP_MODES[0] else 1, "shots": shots,
                       "truth": ["interior", "boundary"][int(rnd.integers(0, 2))],
-                      "m": int(rnd.choice([2, 3, 4])) if kind == "povmt" else (2 if kind == "qmpt" else None)})
+                      "m": int(rnd.choice([2, 3, 4])) if kind == "povmt" else (2 if kind == "qmpt" else None),
+                      "perm": bool(i % 3 == 1)})
     return specs
 
 
 def setup(spec):
     g = gen(spec["seed"], spec["salt"])
-    qt, c, m = L.make_qt(g, spec["kind"], spec["sys"], spec["para"], m=spec["m"])
+    qt, c, m = L.make_qt(g, spec["kind"], spec["sys"], spec["para"], m=spec["m"], perm=bool(spec.get("perm")))
     true = L.true_object(g, spec["kind"], c, m, spec["truth"])
-    empi = L.exact_data(qt, true) if spec["shots"] == "exact" else L.fewshot_data(g, qt, true, int(spec["shots"]))
+    empi = born_exact(qt, true) if spec["shots"] == "exact" else born_fewshot(g, qt, true, int(spec["shots"]))
     return g, qt, c, m, true, empi
 
 
@@ -219,7 +242,7 @@ def eval_spec(spec):
     #     not be beaten (independent loss formula, that element's data) by the fresh estimate
     if spec["sys"] == "1qubit" and kind != "qmpt" and res.k <= 150 and (spec["salt"] % 2 == 0 or 900 <= spec["salt"] % 1000):
         shots_b = 37 if spec["shots"] == "exact" else max(7, int(spec["shots"]) // 3)
-        empi_b = L.fewshot_data(g, qt, true, shots_b)
+        empi_b = born_fewshot(g, qt, true, shots_b)
         Lc, LOc = L.LOSSES[fam]
         Ac, AOc = L.ALGOS["pgdb"]
         lobj1, aobj1, aopt1, est1 = Lc(qt.num_variables), Ac(), AOc(**opt), L.LossMinimizationEstimator()
@@ -241,9 +264,9 @@ def eval_spec(spec):
                     break
             # the same loss / algorithm objects once more, now for a DIFFERENT tomography of the same type and size (other
             # tester rotation => other matA): value, gradient and data must all be those of the new experiment
-            qt2, c2, m2_ = L.make_qt(g, kind, spec["sys"], spec["para"], m=spec["m"])
+            qt2, c2, m2_ = L.make_qt(g, kind, spec["sys"], spec["para"], m=spec["m"], perm=bool(spec.get("perm")))
             true2 = L.true_object(g, kind, c2, m2_, spec["truth"])
-            empi2 = L.exact_data(qt2, true2) if spec["shots"] == "exact" else L.fewshot_data(g, qt2, true2, int(spec["shots"]))
+            empi2 = born_exact(qt2, true2) if spec["shots"] == "exact" else born_fewshot(g, qt2, true2, int(spec["shots"]))
             r3, _ = L.quiet(est1.calc_estimate, qt2, empi2, lobj1, LOc("identity"), aobj1, aopt1)
             got2 = np.array(r3.estimated_var, dtype=float)
             fresh2 = np.array(L.run_lme(qt2, empi2, fam, "pgdb", history=False, **opt)[0].estimated_var, dtype=float)
